@@ -19,8 +19,9 @@ RULE = ("exhaustive: all ordered pairs of a 45-value pool (FmtStrs with the same
 LEVEL_NOTE = ("PROVED in Lean for all inputs of the model: equal FmtStrs hash equal for any hash of str, == is an equivalence "
               "relation, equal FmtStrs display identically (C19_eq_display, from C01_display), repr(f) is an expression over "
               "literals, + and the regenerated fmtfuncs names that evaluates to the same characters and displayed formatting "
-              "for every FmtStr with >= 1 run whose formatted run texts contain no ESC '[' (C19_repr_partial; open finding D27 "
-              "with witness theorem C19_repr_witness for the rest). DEFINITIONAL / TIE-ONLY: C19_eq and C19_str restate that "
+              "for every FmtStr with >= 1 run in which no FORMATTED run (a colour or a True style) has ESC '[' in its text "
+              "(C19_repr_partial - unformatted runs with ESC '[' are covered; open finding D27 with C19_repr_witness and "
+              "C19_repr_full_statement_false for the rest). DEFINITIONAL / TIE-ONLY: C19_eq and C19_str restate that "
               "__eq__ compares str(self) with str(other) - the model says what the code says, the per-run correspondence on "
               "all pool pairs carries it; the reflected `s == f` dispatch, bytes operands, CPython's hash of str and repr/eval "
               "of string literals are CPython facts covered by the correspondence only. Trusted: Lean kernel + "
@@ -296,12 +297,33 @@ def oracle(c):
         return "observing the values raised %s: %s" % (type(e).__name__, e)
 
 
+D27_MODEL = {}   # request line -> reply of the Lean model (its own escape parser, not the tree's fmtstr)
+
+
+def d27_shaped(c):
+    """a run with at least one truthy attribute whose text contains ESC '['"""
+    return c["op"] == "repr" and any("\x1b[" in t and any(v for v in a.values()) for t, a in c["f"])
+
+
 def footprint(c, what):
-    """D27 (open): a run with at least one truthy attribute whose text contains ESC '[' (its literal is re-parsed by
-    fmtstr inside the helper call when the repr is evaluated)"""
-    if c["op"] == "repr" and any("\x1b[" in t and any(v for v in a.values()) for t, a in c["f"]):
+    """D27 (open): the literal of a formatted run with ESC '[' is re-parsed by fmtstr inside the helper call when the
+    repr is evaluated.  Attributed ONLY when repr(f) is exactly the expression the model predicts AND evaluating it gives
+    exactly the value the model predicts (the run texts parsed by the model's own escape parser, attributes merged as
+    the nesting does); anything else on such an input is an unlisted violation."""
+    if not d27_shaped(c):
+        return None
+    ev = dict(c, op="evalrepr")
+    want_repr, want_val = D27_MODEL.get(line(c)), D27_MODEL.get(line(ev))
+    if not want_repr or not want_val or not want_repr.startswith("ok") or not want_val.startswith("ok"):
+        return None
+    try:
+        if impl(c) != want_repr or canon_val(impl(ev)) != canon_val(want_val):
+            return None
+        if repr(mk_fmt(c["f"])) != repr(mk_fmt(c["f"])):
+            return None
         return "D27"
-    return None
+    except Exception:  # noqa: BLE001
+        return None
 
 
 def nontrivial(c):
@@ -314,6 +336,14 @@ def nontrivial(c):
 
 def check(ctx):
     cases = mk_cases(ctx)
+    d27 = [c for c in cases if d27_shaped(c)]
+    try:
+        import lib
+        reqs = [line(c) for c in d27] + [line(dict(c, op="evalrepr")) for c in d27]
+        for rq, rep in zip(reqs, lib.run_driver(reqs)):
+            D27_MODEL[rq] = rep
+    except Exception as e:  # noqa: BLE001 - without the model nothing is attributed to D27
+        ctx.note("D27 expectations unavailable: %r" % (e,))
     ctx.tie("C19/eq", [c for c in cases if c["op"] in ("eq", "eqother", "eqbytes")], line, impl)
     ctx.tie("C19/hash", [c for c in cases if c["op"] == "hash"], line, impl, None, canon_hash_model)
     reprs = [c for c in cases if c["op"] == "repr"]
